@@ -94,6 +94,7 @@ func VerifH_kms_parse_limit() {
 }
 
 func VerifH_kms_envelope() {
+	verifrt.NativeSkip("the registry is summarised")
 	summariseRegistry()
 	pad := verifrt.Choice("pad", 3)
 	kek := stubKEK{pad: pad}
